@@ -29,6 +29,35 @@ def combine(D, m):
     if D.get("notify_all"): out["notify_all"] = True
     return out
 
+def resolve_removals(m):
+    """'-name' entries written out: the entries whose target is `name` (plain, optional, or inside a conditional map) and
+    the '-name' entry itself are dropped. Returns m unchanged where that is not a purely textual operation (the name also
+    occurs under depends:, whose entries feed two lists)."""
+    out = copy.deepcopy(m)
+    dep_targets = set()
+    for e in out.get("depends") or []:
+        for t in ([e] if isinstance(e, str) else [x for v in e.values() for x in v]): dep_targets.add(t.lstrip("?"))
+    for fld in ("selects", "uses"):
+        lst = out.get(fld)
+        if not lst: continue
+        rem = [e[1:] for e in lst if isinstance(e, str) and e.startswith("-")]
+        if not rem: continue
+        if any(r.startswith("?") or r.startswith("-") or r in dep_targets for r in rem): return m
+        new = []
+        for e in lst:
+            if isinstance(e, str):
+                if e.startswith("-") or e.lstrip("?") in rem: continue
+                new.append(e)
+            else:
+                d = {}
+                for k, v in e.items():
+                    kept = [x for x in v if x.lstrip("?") not in rem and not x.startswith("-")]
+                    if any(x.startswith("-") for x in v): return m
+                    if kept: d[k] = kept
+                if d: new.append(d)
+        out[fld] = new
+    return out
+
 def inline_defaults(files):
     """-> files with every `defaults:` (own or inherited through subdirs/includes) written out in the
     modules and apps; None when the textual inlining is not exactly equivalent"""
@@ -81,7 +110,7 @@ def inline_defaults(files):
             if not D: continue
             if key in d and d[key] is None: return None
             if d.get(key):
-                d[key] = [combine(D, m) for m in d[key]]; changed = True
+                d[key] = [resolve_removals(combine(D, m)) for m in d[key]]; changed = True
     return f2 if changed else None
 
 def unroll_context_lists(files):
